@@ -3,6 +3,10 @@ api._keep_affixes, executed through the purepath shim (vf/shims/purepath.py)."""
 
 from __future__ import annotations
 
+import stepup.core.api  # noqa: F401  (imported before CrossHair starts tracing)
+import stepup.core.executor  # noqa: F401
+import stepup.core.step  # noqa: F401
+
 import ast
 import inspect
 import textwrap
